@@ -21,6 +21,11 @@ type Kit struct {
 	Run   string   `json:"run"`   // -run pattern
 	Tags  string   `json:"tags,omitempty"`
 	Race  bool     `json:"race,omitempty"`
+	BoundedFor string `json:"bounded_for,omitempty"` // property id: a bounded stand-in run with every check of that property
+	Bound      string `json:"bound,omitempty"`
+	Hide       []string `json:"hide,omitempty"` // repository files hidden from the build (overlay deletion)
+	Variant    string            `json:"variant,omitempty"`
+	Retag      map[string]string `json:"retag,omitempty"` // repo file -> build constraint replacing its //go:build line (mechanical copy made at check time)
 }
 
 type kitFile struct {
@@ -70,7 +75,7 @@ func replayWithKit(o checkOpts, id string, ob *OblResult, rf *ReplayFile) {
 }
 
 func runKit(o checkOpts, id string, k Kit) *kitResult {
-	key := k.Pkg + "|" + k.Run
+	key := k.Pkg + "|" + k.Run + "|" + k.Tags + "|" + k.Variant
 	kitMu.Lock()
 	defer kitMu.Unlock()
 	if r, ok := kitCache[key]; ok {
@@ -83,7 +88,26 @@ func runKit(o checkOpts, id string, k Kit) *kitResult {
 		dst := filepath.Join(o.repo, strings.TrimPrefix(k.Pkg, "./"), filepath.Base(f))
 		ov["Replace"][dst] = filepath.Join(o.verif, "replaykit", f)
 	}
-	ovPath := filepath.Join(dir, "overlay_"+sanitizeFile(k.Run)+".json")
+	for _, h := range k.Hide {
+		ov["Replace"][filepath.Join(o.repo, h)] = ""
+	}
+	for f, constraint := range k.Retag {
+		src, err := os.ReadFile(filepath.Join(o.repo, f))
+		if err != nil {
+			continue
+		}
+		lines := strings.Split(string(src), "\n")
+		for i, l := range lines {
+			if strings.HasPrefix(l, "//go:build ") {
+				lines[i] = "//go:build " + constraint
+				break
+			}
+		}
+		cp := filepath.Join(dir, "retag_"+sanitizeFile(f))
+		os.WriteFile(cp, []byte(strings.Join(lines, "\n")), 0o644)
+		ov["Replace"][filepath.Join(o.repo, f)] = cp
+	}
+	ovPath := filepath.Join(dir, "overlay_"+sanitizeFile(k.Run+k.Tags+k.Variant)+".json")
 	writeJSON(ovPath, ov)
 	secs := 15
 	if o.tier == "thorough" {
@@ -98,8 +122,12 @@ func runKit(o checkOpts, id string, k Kit) *kitResult {
 	if k.Tags != "" {
 		tags = " -tags " + k.Tags
 	}
-	cmd := fmt.Sprintf("cd %s && GOFLAGS=-mod=mod GOPROXY=off GOSUMDB=off GOTOOLCHAIN=local VERIF_SEED=%d GOVC_WITNESS_SECONDS=%d go test -overlay %s -vet=off%s%s -count=1 -timeout %ds -run '%s' %s",
-		o.repo, seed, secs, ovPath, race, tags, secs+120, k.Run, k.Pkg)
+	verbose := ""
+	if k.BoundedFor != "" {
+		verbose = " -v"
+	}
+	cmd := fmt.Sprintf("cd %s && GOFLAGS=-mod=mod GOPROXY=off GOSUMDB=off GOTOOLCHAIN=local VERIF_SEED=%d GOVC_WITNESS_SECONDS=%d go test -overlay %s -vet=off%s%s%s -count=1 -timeout %ds -run '%s' %s",
+		o.repo, seed, secs, ovPath, race, tags, verbose, secs+120, k.Run, k.Pkg)
 	out, code := runReplayCmd(cmd)
 	r := &kitResult{cmd: cmd, out: out, reproduced: code != 0 && strings.Contains(out, "WITNESS")}
 	kitCache[key] = r
@@ -119,3 +147,31 @@ func runReplayCmd(cmd string) (string, int) {
 }
 
 func cmdSelftest(args []string) int { return 0 }
+
+type boundedResult struct {
+	Name   string `json:"name"`
+	Bound  string `json:"bound"`
+	Tags   string `json:"tags,omitempty"`
+	Passed bool   `json:"passed"`
+	Cases  string `json:"cases,omitempty"`
+	Cmd    string `json:"cmd"`
+	Out    string `json:"-"`
+}
+
+// runBounded executes the bounded stand-ins registered for a property (never counted as proof).
+func runBounded(o checkOpts, id string) []boundedResult {
+	var out []boundedResult
+	for _, k := range loadKits(o.verif) {
+		if k.BoundedFor != id {
+			continue
+		}
+		res := runKit(o, id, k)
+		br := boundedResult{Name: k.Run + k.Variant, Bound: k.Bound, Tags: k.Tags, Cmd: res.cmd, Out: res.out}
+		br.Passed = strings.Contains(res.out, "ok  \t") && !strings.Contains(res.out, "BOUNDED-FAIL") && !strings.Contains(res.out, "FAIL")
+		if m := regexp.MustCompile(`BOUNDED-OK (.*)`).FindStringSubmatch(res.out); m != nil {
+			br.Cases = m[1]
+		}
+		out = append(out, br)
+	}
+	return out
+}
